@@ -185,6 +185,20 @@ public:
       if (r.chance(1, 4)) { parts.push_back("--max-cycles"); parts.push_back(r.chance(2, 3) ? "@REL" + std::to_string((int)r.range(-2, 2)) : std::to_string(1 + r.below(2000))); }
       parts.push_back("prog.bin");
     }
+    // Usage errors: the command line itself is wrong (the statement's "on any error").
+    if (tool != "hexsim" && r.chance(1, 16)) {
+      static const char *bogus[] = {"--bogus", "-x", "--output-file", "-", "--tree-optimised", "-O2", "--trace-all"};
+      size_t at = (size_t)r.below(parts.size() + 1);
+      switch (r.below(5)) {
+        case 0: parts.insert(parts.begin() + (long)at, bogus[r.below(7)]); break;                       // unknown option
+        case 1: parts.insert(parts.begin() + (long)at, r.chance(1, 2) ? "other.x" : srcName); break;    // a second file
+        case 2: parts.insert(parts.begin() + (long)at, r.chance(1, 2) ? "-h" : "--help"); break;        // help wins over everything
+        case 3: parts.erase(std::remove(parts.begin(), parts.end(), srcName), parts.end()); break;     // no file
+        default: if (tool == "xrun") { parts.push_back("--max-cycles"); parts.push_back("abc"); }
+                 else parts.insert(parts.begin() + (long)at, tool == "xcmp" ? "--instrs" : "--tree"); break;   // the other tool's option
+      }
+      inv["usage_error"] = true;
+    }
     for (auto &p : parts) argv.push(p);
     inv["argv"] = argv;
     std::string in;
@@ -435,17 +449,57 @@ public:
     for (auto &a : inv.at("argv").a) args.push_back(a.s);
     std::string input = sim::fromHex(inv.getStr("stdin_hex"));
     // Which file argument, which output name, which listing flag.
-    std::string fileArg, outName, listing; bool help = false;
-    for (size_t k = 0; k < args.size(); k++) {
-      const std::string &a = args[k];
-      if (a == "-o" || a == "--output") { if (k + 1 < args.size()) outName = args[++k]; else help = true; }
-      else if (a == "--max-cycles") { k++; }
-      else if (a == "-h" || a == "--help") help = true;
-      else if (a == "-t" || a == "--trace" || a == "-d" || a == "--dump") {}
-      else if (a.size() > 1 && a[0] == '-') listing = a;
-      else if (fileArg.empty()) fileArg = a; else help = true;     // two positional arguments: a usage error, not "a source"
+    // A usage error, judged by the command lines the four help texts document, is any of: -h/--help,
+    // an option the tool does not have, an option without its value, --max-cycles with a word for a
+    // number, no file, more than one file.
+    std::string fileArg, outName, listing, usage; bool unclear = false;
+    {
+      std::set<std::string> valued, plain;
+      if (tool == "xcmp") { valued = {"-o", "--output"}; plain = {"--tokens", "--tree", "--tree-opt", "--insts", "--insts-lowered", "--insts-optimised", "--memory-info", "-S", "--insts-asm"}; }
+      else if (tool == "hexasm") { valued = {"-o", "--output"}; plain = {"--tokens", "--instrs"}; }
+      else if (tool == "xrun") { valued = {"--max-cycles"}; plain = {"-t", "--trace"}; }
+      else { valued = {"--max-cycles"}; plain = {"-t", "--trace", "-d", "--dump"}; }
+      auto flag = [&](const std::string &w) { if (usage.empty()) usage = w; };
+      for (size_t k = 0; k < args.size(); k++) {
+        const std::string &a = args[k];
+        if (a == "-h" || a == "--help") flag("help requested");
+        else if (valued.count(a)) {
+          // An option without its value hands the null pointer that ends argv to std::string / stoull:
+          // what follows is the library's business (libstdc++ throws), and a listing action never
+          // looks at the output name at all.  Not judged.
+          if (k + 1 >= args.size()) { unclear = true; break; }
+          const std::string &val = args[++k];
+          if (a == "--max-cycles") {
+            if (val.compare(0, 4, "@REL") == 0) {}
+            else if (val.empty() || std::isalpha((unsigned char)val[0])) flag("--max-cycles " + val);
+            else if (!std::isdigit((unsigned char)val[0])) unclear = true;     // what stoull makes of signs and blanks is not the subject
+          } else outName = val;
+        }
+        else if (plain.count(a)) { if (tool == "xcmp" || tool == "hexasm") listing = a; }
+        else if (!a.empty() && a[0] == '-' && tool != "hexsim") flag("unknown option " + a);
+        else if (fileArg.empty()) fileArg = a;
+        else flag("more than one file");
+      }
+      if (fileArg.empty()) flag("no file");
     }
-    if (help || fileArg.empty()) { o.note = "skipped:usage"; return; }
+    if (unclear) { o.note = "skipped:usage_unclear"; return; }
+    if (!usage.empty()) {
+      if (tool == "hexsim") { o.note = "skipped:usage"; return; }     // the statement speaks of hexsim's status for a program only
+      Inv r = invoke(tool, args, input);
+      o.nontrivial = true; o.simInstr = 1;
+      o.count("fault.usage_error");
+      o.stateKeys.push_back("c14 " + tool + " usage=" + usage.substr(0, usage.find(' ')));
+      if (r.t.kind == sim::Trapped::CRASHED && r.t.signal == SIGALRM) { o.note = "skipped:watchdog"; o.count("probe.watchdog_hit"); return; }
+      if (r.t.kind == sim::Trapped::CRASHED) { o.violate("crashed", tool + " " + r.t.str() + " on a usage error (" + usage + ")", "crashed:" + tool + ":usage"); return; }
+      if (r.status() == 0) { o.violate("contract_status", tool + " exits 0 on a usage error (" + usage + ")", "contract_status:" + tool + ":usage_zero"); return; }
+      if (r.err.empty() && r.out.empty()) { o.violate("contract_status", tool + " reports nothing on a usage error (" + usage + ")", "contract_status:" + tool + ":usage_no_diagnostic"); return; }
+      std::string touched;
+      for (auto &kv : r.after) if (!r.before.count(kv.first) || r.before.at(kv.first) != kv.second) touched += " " + kv.first;
+      for (auto &kv : r.before) if (!r.after.count(kv.first)) touched += " -" + kv.first;
+      if (!touched.empty()) { o.violate("contract_file", tool + " wrote files on a usage error (" + usage + "):" + touched, "contract_file:" + tool + ":usage_touched_files"); return; }
+      o.note = "completed:usage_error";
+      return;
+    }
     bool isXTool = tool == "xcmp" || tool == "xrun";
     std::string kind = tool;
 
